@@ -59,6 +59,8 @@ struct Obs {
   int src_tracked;         // source element type has a ledger (not so for an int* source feeding a tracked type)
   int live;                // live objects according to the ledger after the call
   long events;             // fault points passed during the call (E of the fault-free run)
+  long assigns;            // copy/move ASSIGNMENT operator calls during the call: the destination is raw storage and
+                           // the sources are only read, moved from or destroyed, so the standard algorithms make none
   int outside_ok;          // no byte outside [dest, dest+n) was written
   int ledger_fails;        // lifetime violations logged by the elements during the call
   char ledger_msg[200];
@@ -73,8 +75,14 @@ struct Obs {
   }
 };
 
+inline long &assign_baseline() {
+  static long b = 0;
+  return b;
+}
+inline long assign_count() { return vf::L().n_copy_asg + vf::L().n_move_asg; }
 /// Arm fault injection: the k-th fault point from now on throws (k == 0: none).
 inline void arm(long k) {
+  assign_baseline() = assign_count();
   vf::L().events = 0;
   vf::L().fault_at = k;
 }
@@ -86,6 +94,7 @@ inline long disarm() {
 
 /// Ledger part of the observation, taken right after the call.
 inline void obs_ledger(Obs &o) {
+  o.assigns = assign_count() - assign_baseline();
   o.live = vf::L().live();
   o.ledger_fails = static_cast<int>(vf::L().fail_total);
   if (vf::L().nfail > 0) std::snprintf(o.ledger_msg, sizeof o.ledger_msg, "%s", vf::L().fails[0].msg);
@@ -179,6 +188,9 @@ inline void case_id(char *out, size_t cap, const Tuple &t, long k) {
 inline void judge_absolute(const char *id, const Obs &o, const char *world) {
   if (o.ledger_fails) record_failure(id, "[%s] lifetime violation: %s", world, o.ledger_msg);
   if (!o.outside_ok) record_failure(id, "[%s] memory outside [dest, dest+n) was written", world);
+  if (o.assigns)
+    record_failure(id, "[%s] %ld assignment operator call(s): the algorithm assigned where it has to construct (operator= on raw storage)",
+                   world, o.assigns);
   if (o.tracked) {
     int visible = 0;
     for (int i = 0; i < o.nsrc; ++i) visible += o.src_tracked && o.salive[i];
@@ -217,6 +229,7 @@ inline void judge_against(const char *id, const Obs &a, const Obs &r, const char
       record_failure(id, "source[%d] = %d%s, %s: %d%s", i, a.sval[i], a.smoved[i] ? " (moved-from)" : "", oracle, r.sval[i],
                      r.smoved[i] ? " (moved-from)" : "");
   }
+  if (a.assigns != r.assigns) record_failure(id, "%ld assignment operator call(s), %s: %ld", a.assigns, oracle, r.assigns);
   if (a.tracked && a.live != r.live && !a.ledger_fails)
     record_failure(id, "%d live objects afterwards, %s: %d", a.live, oracle, r.live);
 }
